@@ -1,5 +1,5 @@
-import CardVerif.Spec.Strength
-import CardVerif.Spec.BettingRules
+import CardModel.Spec.Strength
+import CardModel.Spec.BettingRules
 import CardVerif.Props.C02
 import CardVerif.Proofs.Showdown
 /-!
